@@ -664,6 +664,11 @@ int32_t psAesDecryptGCM(psAesGcm_t *ctx,
     gcm_final(ctx, digest);
     if (memcmpct(digest, ct + ptLen, tlen) != 0)
     {
+        /* Do not release unauthenticated plaintext to the caller */
+        if (ptLen > 0)
+        {
+            memset_s(pt, ptLen, 0x0, ptLen);
+        }
         return PS_AUTH_FAIL;
     }
     return PS_SUCCESS;
@@ -681,6 +686,11 @@ int32_t psAesDecryptGCM2(psAesGcm_t *ctx,
     gcm_final(ctx, tagTmp);
     if (memcmpct(tag, tagTmp, tagLen) != 0)
     {
+        /* Do not release unauthenticated plaintext to the caller */
+        if (len > 0)
+        {
+            memset_s(pt, len, 0x0, len);
+        }
         return PS_AUTH_FAIL;
     }
     return PS_SUCCESS;
